@@ -218,6 +218,10 @@ pub fn draw_line<T: Copy>(mut image: NdTensorViewMut<T, 2>, line: Line, value: T
             .map(|c| Point::from_yx(c.y as i32, c.x as i32));
 
         for p in Polygon::new(corners).fill_iter() {
+            // `Point::coord` requires non-negative coordinates.
+            if p.x < 0 || p.y < 0 {
+                continue;
+            }
             if let Some(img_val) = image.get_mut(p.coord()) {
                 *img_val = value;
             }
